@@ -24,6 +24,12 @@ KIND = {"bool": "KBool", "int32": "KInt32", "sint32": "KSint32", "sfixed32": "KS
 NVARS = 4
 
 
+def cz(n):  # noqa: F811  (large literals in hexadecimal: Coq parses decimal ones in quadratic time)
+    if abs(n) < 2 ** 64:
+        return "(%d)%%Z" % n
+    return "(%s0x%x)%%Z" % ("-" if n < 0 else "", abs(n))
+
+
 def zs(bs):
     return "[" + "; ".join(str(b) for b in bs) + "]"
 
@@ -126,8 +132,11 @@ def utf8_bad(c):
 SCALAR_DEFS = """
 Definition i2f (z : Z) : Z := match find (fun p => fst p =? z) i2f_tab with Some (_, b) => b | None => 0 end.
 Definition f32 (b : Z) : Z := match find (fun p => fst p =? b) f32_tab with Some (_, c) => c | None => b end.
+Inductive rtc := RSame | RNone | RDiff (c : content).
+Definition rt_of (after : content) (r : rtc) : option content :=
+  match r with RSame => Some after | RNone => None | RDiff c => Some c end.
 Inductive scase := SC (k : kind) (pos : position) (val : sval) (out : sout) (before after : content)
-                      (rt_bin rt_text : option content) (utf8_bad : bool).
+                      (rt_bin rt_text : rtc) (utf8_bad : bool).
 Definition sout_eqb (a b : sout) : bool := match a, b with SOk, SOk | SErr, SErr | SPanic, SPanic => true | _, _ => false end.
 Definition model_ok (c : scase) : bool :=
   match c with SC k pos val out before after _ _ _ =>
@@ -137,7 +146,7 @@ Definition model_ok (c : scase) : bool :=
   end.
 Definition spec_ok (c : scase) : bool :=
   match c with SC k pos val out before after rb rt u =>
-    spec_scalar_ok i2f f32 (match pos with PMapKey _ _ => KInt64 | _ => k end) pos val out before after rb rt u
+    spec_scalar_ok i2f f32 k pos val out before after (rt_of after rb) (rt_of after rt) u
   end.
 """
 
@@ -267,22 +276,12 @@ def replay(ctx, hx, ops):
     return recs[0] if recs else None
 
 
-def shrink(ctx, hx, ops, still_fails, budget=120):
-    """ddmin-style: drop single ops while the failure persists."""
-    ops = list(ops)
-    changed = True
-    while changed and budget > 0:
-        changed = False
-        for k in range(len(ops) - 1, -1, -1):
-            if budget <= 0:
-                break
-            cand = ops[:k] + ops[k + 1:]
-            budget -= 1
-            rec = replay(ctx, hx, cand)
-            if rec is not None and "cycle" not in rec["res"] and still_fails(rec):
-                ops = cand
-                changed = True
-    return ops
+def shrink(ctx, hx, ops):
+    """1-minimal sub-history on which a frozen message still changes (done by the harness, in process)."""
+    f = os.path.join(ctx.build, "tmp", "c20_shrink.json")
+    json.dump(ops, open(f, "w"))
+    recs = ctx.jsonl([hx, "-mode", "shrink", "-file", f], timeout=120)
+    return recs[0] if recs else None
 
 
 def freeze_key(ops, viol):
@@ -317,8 +316,10 @@ def run(ctx):
         rb, rt = content(c.get("rt_bin"), is_map), content(c.get("rt_text"), is_map)
         after = content(c.get("after"), is_map) or content(c.get("before"), is_map)
         out = {"ok": "SOk", "err": "SErr", "panic": "SPanic"}[c["out"]]
-        terms.append("(SC %s %s %s %s %s %s %s %s %s)" % (KIND[c["fk"]], position(c), sval(v), out, content(c["before"], is_map), after,
-                                                      copt(rb), copt(rt), cbool(utf8_bad(c))))
+        def rtc(x):
+            return "RNone" if x is None else ("RSame" if x == after else "(RDiff %s)" % x)
+        terms.append("(SC %s %s %s %s %s %s %s %s %s)" % ("KInt64" if c["pos"] == "map_key" else KIND[c["fk"]], position(c), sval(v), out, content(c["before"], is_map), after,
+                                                      rtc(rb), rtc(rt), cbool(utf8_bad(c))))
         refs.append(c)
     i2f = {z: i2f_bits(z) for z in ints}
     for b in i2f.values():
@@ -332,7 +333,14 @@ def run(ctx):
     header += "Definition i2f_tab : list (Z * Z) := %s.\n" % clist(["(%s, %s)" % (cz(k), cz(v)) for k, v in sorted(i2f.items())])
     header += "Definition f32_tab : list (Z * Z) := %s.\n" % clist(["(%s, %s)" % (cz(k), cz(v)) for k, v in sorted(f32.items())])
     header += SCALAR_DEFS
-    bad_model, bad_spec = coq_mismatches(ctx, "c20_scalar", header, terms, ["model_ok", "spec_ok"], shard=3000, timeout=900)
+    import concurrent.futures as cf
+    pool = cf.ThreadPoolExecutor(max_workers=2)
+    scalar_job = pool.submit(coq_mismatches, ctx, "c20_scalar", header, terms, ["model_ok", "spec_ok"], 3000, 900)
+    return run_histories(ctx, hx, dist, cases, terms, refs, scalar_job)
+
+
+def finish_scalar(ctx, refs, scalar_job):
+    bad_model, bad_spec = scalar_job.result()
     for i in bad_spec:
         c = refs[i]
         if c["out"] == "panic":
@@ -347,6 +355,10 @@ def run(ctx):
     if only_model:
         ctx.broken("correspondence:C20.Kinds", "model and implementation differ on %d scalar case(s) where the specification is met, e.g. %s" % (len(only_model), refs[only_model[0]]))
 
+    return len(bad_model), len(bad_spec)
+
+
+def run_histories(ctx, hx, dist, cases, terms, refs, scalar_job):
     # ------------------------------------------------------------ probes
     probes = ctx.jsonl([hx, "-mode", "probe"])
     for p in probes:
@@ -365,7 +377,7 @@ def run(ctx):
             ctx.finding("post:self-assign:probe:" + name, "m.f = m.f changes the field (%s): %s" % (name, p["detail"][:200]), p)
 
     # ------------------------------------------------------------ histories
-    n = 600 if ctx.quick() else 8000
+    n = 400 if ctx.quick() else 8000
     recs = ctx.jsonl([hx, "-mode", "hist", "-seed", str(ctx.seed), "-n", str(n), "-len", "14"], timeout=600)
     hists = [r for r in recs if r["kind"] == "hist"]
     ctx.log("histories: %d, %d with a frozen message changing" % (len(hists), sum(1 for h in hists if "freeze_violation" in h)))
@@ -382,27 +394,29 @@ def run(ctx):
         names = [o["op"] for o in h["ops"][:v["changed_at"] + 1]]
         sig = (v["op"]["op"], "Copy" in names, any(x in ALIAS_OPS for x in names))
         seen_sig.setdefault(sig, []).append(h)
-    budget_h = 10 if ctx.quick() else 40
+    budget_h = 40 if ctx.quick() else 200
     for sig, hs_ in sorted(seen_sig.items(), key=lambda kv: str(kv[0])):
-        for h in hs_[:2]:
+        for h in hs_[:3]:
             if budget_h <= 0:
                 break
             budget_h -= 1
             v = h["freeze_violation"]
-            ops = shrink(ctx, hx, h["ops"][:v["changed_at"] + 1], lambda rec: "freeze_violation" in rec, budget=60 if ctx.quick() else 150)
-            rec = replay(ctx, hx, ops)
+            rec = shrink(ctx, hx, h["ops"][:v["changed_at"] + 1])
             if rec is None or "freeze_violation" not in rec:
-                ops, rec = h["ops"], h
+                rec = h
+            ops = rec["ops"]
             key = freeze_key(ops, rec["freeze_violation"])
             ctx.finding(key, "after Freeze of x%d the content read back from it changes at step %d (%s); minimal history: %s" % (
                 rec["freeze_violation"]["var"], rec["freeze_violation"]["changed_at"], rec["freeze_violation"]["op"], [o["op"] for o in ops]),
                 {"ops": ops, "violation": rec["freeze_violation"], "replay_cmd": "c20 -mode replay -file <ops.json>"})
+    ctx.log("shrinking done")
     # Coq: model correspondence and the specification on a sample
     sample = hists if len(hists) <= 900 else hists[:900]
     if ctx.quick():
-        sample = hists[:250]
+        sample = hists[:80]
     cleaned = [clean_history(h) for h in sample]
     verdicts = eval_histories(ctx, cleaned)
+    ctx.log("history evaluation done")
     nmodel = nspec = 0
     for h, steps, (mb, sb) in zip(sample, cleaned, verdicts):
         if sb is not None:
@@ -430,13 +444,14 @@ def run(ctx):
             if nmodel == 1:
                 o, r, d = steps[mb]
                 ctx.broken("correspondence:C20.Store", "model and implementation differ at step %d (%s -> %s) of history %s" % (mb, o, r, [x[0] for x in steps[:mb + 1]]))
+    nbad_model, nbad_spec = finish_scalar(ctx, refs, scalar_job)
     cov = {
         "evaluations": len(cases) + sum(len(h["ops"]) for h in hists) + len(probes),
         "distinct_nontrivial": len(set(terms)) + len(cleaned),
         "rule": "scalar grid: 16 kinds x 8 positions x boundary values (min-1, min, max, max+1, powers of two, wrong types, None), each with before/after read-back and binary + text marshal round trip; %d random histories of <= 14 operations over 4 variables of a recursive message type (20 operation kinds), everything read back after every step, Go-side freeze oracle on all, %d histories evaluated step by step inside Coq against Store.v (correspondence) and Spec.v (oracle); %d scripted probes" % (len(hists), len(cleaned), len(probes)),
         "samples": refs[:2] + [{"ops": h["ops"], "res": h["res"]} for h in hists[:2]],
         "distribution": dist,
-        "scalar_model_mismatches": len(bad_model), "scalar_spec_mismatches": len(bad_spec),
+        "scalar_model_mismatches": nbad_model, "scalar_spec_mismatches": nbad_spec,
         "history_model_mismatches": nmodel, "history_spec_failures": nspec,
         "freeze_violation_histories": sum(1 for h in hists if "freeze_violation" in h),
         "probes": {p["name"]: {"out": p["out"], "mutated": p["mutated"]} for p in probes},
